@@ -1,5 +1,5 @@
 (* Proofs/C02Hist.v — "in create_db and in update alike": over every history of imports into one database (create_db,
-   then any number of update() calls) under the strategies that never delete (error, warning, create_unique, merge),
+   then any number of update() calls) under ANY of the five strategies ('replace' included, since the repair of F23),
    the level-2 rows are exactly the compositions of two level-1 rows that start at a stored feature. *)
 From GV Require Import Base.Prelude Base.PyStr Model.Bins Model.DB Model.Parser Model.Import Model.Hier
   Proofs.C02Proofs Proofs.C04Proofs.
@@ -69,7 +69,8 @@ Section Hist.
     intros Hs. unfold step_gff. destruct (store call strat force spec st f0) as [o|] eqn:E; [|discriminate].
     destruct (store_grows _ _ _ _ _ _ Hs E) as [G1 G2]. destruct o as [s|s id]; cbn [out_state] in *.
     - intros H. inversion H; subst. repeat split; auto; rewrite G2; auto.
-    - intros H. inversion H; subst. cbn [s_rows s_rels]. repeat split; [exact G1| |].
+    - replace (is_replace strat) with false by (destruct strat; try reflexivity; congruence). cbn [andb].
+      intros H. inversion H; subst. cbn [s_rows s_rels]. repeat split; [exact G1| |].
       + intros x Hx. apply add_rels_In. left. rewrite G2. exact Hx.
       + intros x Hx. apply add_rels_In in Hx as [Hx|Hx]; [left; rewrite <- G2; exact Hx|].
         apply in_map_iff in Hx as [p [<- _]]. right. reflexivity.
@@ -84,6 +85,58 @@ Section Hist.
       apply (grows_trans st s1 st'); [apply (step_grows _ _ _ _ _ _ Hs E)|apply IH; exact H].
   Qed.
 
+  (* 'replace': rows keep their ids; the links that go are exactly the replaced version's level-1 parent links and the
+     level-2 rows ending at it or running through it - which is what keeps closed2 *)
+  Lemma step_replace_closed force spec st f0 st' : step_gff call SReplace force spec st f0 = Ok st' ->
+    closed2 st -> levels12 st -> closed2 st' /\ levels12 st'.
+  Proof.
+    intros H Hc Hl. unfold step_gff, store in H.
+    destruct (id_handler call spec f0 (s_auto st)) as [[id a]|]; [|discriminate].
+    cbn [s_rows s_rels s_dups s_auto] in H. destruct (has_id id (s_rows st)) eqn:Hh.
+    - cbn [do_merge is_replace andb s_rows s_rels s_dups s_auto r_id set_bin set_id] in H. rewrite Hh in H.
+      inversion H; subst st'. clear H. cbn [s_rels]. split.
+      + intros x z Hin. apply add_rels_In in Hin as [Hin|Hin]; [|apply in_map_iff in Hin as [p [E _]]; discriminate E].
+        apply filter_In in Hin as [Hin Ft]. apply filter_In in Hin as [Hin F1].
+        destruct (Hc x z Hin) as [y [A B]].
+        unfold through_links in Ft. cbn [rel_level rel_child rel_parent] in Ft. change (2 =? 2) with true in Ft. cbn [andb] in Ft.
+        apply negb_true_iff in Ft. apply orb_false_iff in Ft as [Fz Fthrough].
+        assert (Hz : z <> id) by (intros ->; rewrite str_eqb_refl in Fz; discriminate).
+        assert (Hy : y <> id).
+        { intros ->. assert (X1 : mem_str x (map rel_parent (filter (fun y0 => str_eqb (rel_child y0) id && (rel_level y0 =? 1)) (s_rels st))) = true).
+          { apply mem_str_In. apply in_map_iff. exists (mkRel x id 1). split; [reflexivity|]. apply filter_In. split; [exact A|].
+            cbn. rewrite str_eqb_refl. reflexivity. }
+          assert (X2 : mem_str z (map rel_child (filter (fun y0 => str_eqb (rel_parent y0) id && (rel_level y0 =? 1)) (s_rels st))) = true).
+          { apply mem_str_In. apply in_map_iff. exists (mkRel id z 1). split; [reflexivity|]. apply filter_In. split; [exact B|].
+            cbn. rewrite str_eqb_refl. reflexivity. }
+          rewrite X1, X2 in Fthrough. discriminate. }
+        exists y. split; apply add_rels_In; left; apply filter_In.
+        * split; [apply filter_In; split; [exact A|]|reflexivity]. cbn. apply negb_true_iff. apply andb_false_iff. left. apply str_eqb_neq. exact Hy.
+        * split; [apply filter_In; split; [exact B|]|reflexivity]. cbn. apply negb_true_iff. apply andb_false_iff. left. apply str_eqb_neq. exact Hz.
+      + intros x Hin. apply add_rels_In in Hin as [Hin|Hin]; [|apply in_map_iff in Hin as [p [<- _]]; left; reflexivity].
+        apply filter_In in Hin as [Hin _]. apply filter_In in Hin as [Hin _]. apply Hl. exact Hin.
+    - cbn [is_replace andb] in H. rewrite Hh in H. cbn [andb] in H. inversion H; subst st'. clear H. cbn [s_rels s_rows]. split.
+      + intros x z Hin. apply add_rels_In in Hin as [Hin|Hin]; [|apply in_map_iff in Hin as [p [E _]]; discriminate E].
+        destruct (Hc x z Hin) as [y [A B]]. exists y. split; apply add_rels_In; left; assumption.
+      + intros x Hin. apply add_rels_In in Hin as [Hin|Hin]; [apply Hl; exact Hin|apply in_map_iff in Hin as [p [<- _]]; left; reflexivity].
+  Qed.
+
+  Lemma step_closed strat force spec st f0 st' : step_gff call strat force spec st f0 = Ok st' ->
+    closed2 st -> levels12 st -> closed2 st' /\ levels12 st'.
+  Proof.
+    intros H Hc Hl. assert (D : strat = SReplace \/ strat <> SReplace) by (destruct strat; auto; right; discriminate).
+    destruct D as [->|Hs]; [apply (step_replace_closed _ _ _ _ _ H Hc Hl)|].
+    pose proof (step_grows _ _ _ _ _ _ Hs H) as G. split; [apply (closed2_grows _ _ Hc G)|apply (levels12_grows _ _ Hl G)].
+  Qed.
+
+  Lemma run_closed strat force spec : forall fs st st', run_steps (step_gff call strat force spec) fs st = Ok st' ->
+    closed2 st -> levels12 st -> closed2 st' /\ levels12 st'.
+  Proof.
+    induction fs as [|f fs IH]; intros st st' H Hc Hl; cbn [run_steps] in H.
+    - inversion H; subst. auto.
+    - destruct (step_gff call strat force spec st f) as [s1|] eqn:E; [|discriminate].
+      destruct (step_closed _ _ _ _ _ _ E Hc Hl) as [A B]. apply (IH s1 st' H A B).
+  Qed.
+
   Lemma update_relations_mono st st' : update_relations_gff st = Ok st' ->
     s_rows st' = s_rows st /\ forall x, In x (s_rels st) -> In x (s_rels st').
   Proof.
@@ -92,14 +145,13 @@ Section Hist.
   Qed.
 
   (* one import (create_db or update) *)
-  Theorem l_import_closed strat force spec fs st st' : strat <> SReplace ->
+  Theorem l_import_closed strat force spec fs st st' :
     import_gff call strat force spec fs st = Ok st' -> closed2 st -> levels12 st -> clean_state st' ->
     closed2 st' /\ complete2 st' /\ levels12 st'.
   Proof.
-    intros Hs Himp Hc Hl [Cr Cl]. unfold import_gff in Himp. destruct fs as [|f0 fs0]; [discriminate|].
+    intros Himp Hc Hl [Cr Cl]. unfold import_gff in Himp. destruct fs as [|f0 fs0]; [discriminate|].
     destruct (run_steps (step_gff call strat force spec) (f0 :: fs0) st) as [st1|] eqn:R; [|discriminate].
-    pose proof (run_grows strat force spec Hs _ _ _ R) as G.
-    pose proof (closed2_grows _ _ Hc G) as Hc1. pose proof (levels12_grows _ _ Hl G) as Hl1.
+    destruct (run_closed strat force spec _ _ _ R Hc Hl) as [Hc1 Hl1].
     destruct (update_relations_mono _ _ Himp) as [Erows Mono].
     destruct (l_relations_step st1) as (st2 & E2 & R2 & _ & _ & Hrels).
     - intros r Hr. apply Cr. rewrite Erows. exact Hr.
@@ -138,23 +190,22 @@ Section Hist.
         end
     end.
 
-  Theorem l_history_closed force spec : forall bs st st', (forall b, In b bs -> fst b <> SReplace) ->
+  Theorem l_history_closed force spec : forall bs st st',
     imports force spec bs st = Ok st' -> closed2 st -> complete2 st -> levels12 st ->
     closed2 st' /\ complete2 st' /\ levels12 st'.
   Proof.
-    induction bs as [|[strat fs] bs IH]; intros st st' Hb H Hc Hk Hl; cbn [imports] in H.
+    induction bs as [|[strat fs] bs IH]; intros st st' H Hc Hk Hl; cbn [imports] in H.
     - inversion H; subst. auto.
     - destruct (import_gff call strat force spec fs st) as [st1|] eqn:E; [|discriminate].
       destruct (clean_b st1) eqn:Cb; [|discriminate].
       destruct (l_import_closed strat force spec fs st st1) as [A [B C]]; try assumption.
-      + apply (Hb (strat, fs)). left. reflexivity.
       + apply clean_b_spec. exact Cb.
-      + apply (IH st1 st'); try assumption. intros b Hin. apply Hb. right. exact Hin.
+      + apply (IH st1 st'); assumption.
   Qed.
-  Theorem l_history_from_empty force spec bs st' : (forall b, In b bs -> fst b <> SReplace) ->
+  Theorem l_history_from_empty force spec bs st' :
     imports force spec bs empty_st = Ok st' -> closed2 st' /\ complete2 st' /\ levels12 st'.
   Proof.
-    intros Hb H. apply (l_history_closed force spec bs empty_st st' Hb H).
+    intros H. apply (l_history_closed force spec bs empty_st st' H).
     - intros x z F. destruct F.
     - intros x y z F. destruct F.
     - intros x F. destruct F.
